@@ -745,6 +745,15 @@ def r04_2(ctx):
                     tr = trace(sb, t["args"][1])
                     if tr.origin and tr.origin[0] == "agg":
                         from_read = any(is_place(o) and trace(sb, o).origin and trace(sb, o).origin[0] == "call" and (fn_of(trace(sb, o).origin[2]) or {}).get("trait") == "std::io::Read" and (fn_of(trace(sb, o).origin[2]) or {}).get("name") == "read" and _slice_root(sb, trace(sb, o).origin[2]["args"][1]) == root for o in tr.origin[1]["rv"]["ops"])
+                        if not from_read:
+                            # or of a helper that hands back `reader.read(buf)`'s own result for this very slice
+                            for o in tr.origin[1]["rv"]["ops"]:
+                                ot = trace(sb, o) if is_place(o) else None
+                                if ot and ot.origin and ot.origin[0] == "call" and (fn_of(ot.origin[2]) or {}).get("local"):
+                                    hc = lib.by_id.get((fn_of(ot.origin[2]) or {}).get("resolved") or (fn_of(ot.origin[2]) or {}).get("def"))
+                                    pt = r_c09._read_passthrough_helper(lib, hc) if hc is not None else None
+                                    if pt is not None and len(ot.origin[2]["args"]) >= pt[1] and _slice_root(sb, ot.origin[2]["args"][pt[1] - 1]) == root:
+                                        from_read = True
                 if why and "min(len" in why:
                     by_min += 1
                 if why or from_read:
